@@ -986,15 +986,32 @@ class Exec:
             return
         base = name.split(".")
         if name in self.mod.funcs and not name.startswith("llvm."):
-            # a callee the optimiser left out of line: encode it in place (no recursion in this code base)
+            # a callee the optimiser left out of line (or a recursive function): encode it in place.  From the second
+            # nesting level on, a call whose accumulated path condition is unsatisfiable is not followed (bounded
+            # recursion such as f(x) = x >= c ? 2*f(x/4) : ... terminates that way).
             depth = getattr(o, "_depth", 0)
+            outer = getattr(o, "_outer_pc", None)
+            here = self.pc if outer is None else z3.And(outer, self.pc)
+            if depth >= 1:
+                chk = z3.Solver()
+                chk.set("timeout", 5000)
+                chk.add(here)
+                for a_ in self.res.assumes:
+                    chk.add(a_)
+                if chk.check() == z3.unsat:
+                    if ins.dest:
+                        env[ins.dest] = self.fresh("deadcall", z3.BitVecSort(self.ty(ins.ty).w)) \
+                            if isinstance(self.ty(ins.ty), IntTy) else None
+                    return
             if depth > 6:
                 raise Unsupported("call depth")
             o._depth = depth + 1
+            o._outer_pc = here
             try:
                 sub = encode(self.mod, name, args, o)
             finally:
                 o._depth = depth
+                o._outer_pc = outer
             pc = self.pc
             for k, t, cnd in sub.ub:
                 self.res.ub.append((k, t, cnd if is_true(pc) else z3.And(pc, cnd)))
